@@ -493,6 +493,7 @@ fn phase1(cases: &[Case], root: &Path, ministd: &str, tag: usize) -> Vec<Verdict
         let (head, exhaustive, witness) = if let Some(x) = errs.iter().find(|d| d.kind == "Internal") {
             (format!("ice:{}", slug(&x.msg)), false, "-".to_string())
         } else if let Some(x) = errs.iter().find(|d| d.kind != "MatchExpressionNonExhaustive") {
+            eprintln!("sv_c14: unexpected diagnostic {} :: {}\n{}", x.kind, x.msg, &src[e.fn_range.0..e.fn_range.1]);
             (format!("other:{}", x.kind), false, "-".to_string())
         } else if let Some(x) = errs.first() {
             let w = match parse_witnesses(&x.msg, &decls) {
@@ -513,29 +514,49 @@ fn phase1(cases: &[Case], root: &Path, ministd: &str, tag: usize) -> Vec<Verdict
     out
 }
 
-/// Run the accepted matrices; returns per case the `run=` token.
+/// Run the accepted matrices; returns per case the `run=` token. The accepted matrices are split into run
+/// packages of bounded size (a big data section makes the compiler panic: "Unable to offset into the data
+/// section more than 2^12 bits"); a package that still fails to build is halved until the culprit is alone.
 fn phase2(cases: &[Case], accepted: &[usize], root: &Path, ministd: &str, tag: usize, r: &mut Rng) -> Vec<Option<String>> {
     let mut res: Vec<Option<String>> = vec![None; cases.len()];
-    if accepted.is_empty() { return res; }
+    let vals: Vec<(usize, Vec<Val>)> = accepted.iter().map(|&i| (i, run_values(&cases[i], r))).collect();
+    let mut groups: Vec<Vec<(usize, Vec<Val>)>> = vec![];
+    let mut cur: Vec<(usize, Vec<Val>)> = vec![];
+    let mut weight = 0usize;
+    for (i, vs) in vals {
+        if !cur.is_empty() && weight + vs.len() > 1000 { groups.push(std::mem::take(&mut cur)); weight = 0; }
+        weight += vs.len();
+        cur.push((i, vs));
+    }
+    if !cur.is_empty() { groups.push(cur); }
+    let mut n = 0usize;
+    while let Some(g) = groups.pop() {
+        n += 1;
+        if !run_group(cases, &g, root, ministd, &format!("{tag}_{n}"), &mut res) {
+            if g.len() == 1 { res[g[0].0] = Some("buildfail".into()); }
+            else { let mut a = g; let b = a.split_off(a.len() / 2); groups.push(a); groups.push(b); }
+        }
+    }
+    res
+}
+
+fn run_group(cases: &[Case], g: &[(usize, Vec<Val>)], root: &Path, ministd: &str, tag: &str, res: &mut [Option<String>]) -> bool {
     let mut src = String::from("library;\n");
-    let mut vals: Vec<(usize, Vec<Val>)> = vec![];
-    for &i in accepted {
-        let e = emit_fn(i, &cases[i], &mut src);
-        let vs = run_values(&cases[i], r);
+    for (i, vs) in g {
+        let e = emit_fn(*i, &cases[*i], &mut src);
         src.push_str(&format!("#[test]\nfn t{i}() {{\n"));
-        for v in &vs { src.push_str(&format!("    __log(m{i}({}));\n", val_text(v, &e.nty))); }
+        for v in vs { src.push_str(&format!("    __log(m{i}({}));\n", val_text(v, &e.nty))); }
         src.push_str("}\n");
-        vals.push((i, vs));
     }
     let dir = root.join(format!("run{tag}"));
     let _ = std::fs::remove_dir_all(&dir);
     write_pkg(&dir, "c14run", &src, false, &pkg_toml_extra(ministd)).unwrap();
-    // a compiler PANIC while building the accepted matrices is reported like a failed build
+    // a compiler PANIC while building is reported like a failed build
     let built = guarded(|| build_and_test(&dir, false)).unwrap_or_else(|| Err(anyhow::anyhow!("compiler panicked")));
-    match built {
-        Err(e) => { eprintln!("sv_c14: run package failed to build: {e:#}"); for &i in accepted { res[i] = Some("buildfail".into()); } }
+    let ok = match built {
+        Err(e) => { eprintln!("sv_c14: run package of {} matrices failed to build: {e:#}", g.len()); false }
         Ok((outs, _)) => {
-            for (i, vs) in &vals {
+            for (i, vs) in g {
                 let name = format!("t{i}");
                 let Some(o) = outs.iter().find(|o| o.name == name) else { res[*i] = Some("missing".into()); continue; };
                 let arms: Vec<u64> = o.logs.iter().filter_map(|l| match l { Log::Word { val, .. } => Some(*val), _ => None }).collect();
@@ -547,14 +568,16 @@ fn phase2(cases: &[Case], accepted: &[usize], root: &Path, ministd: &str, tag: u
                 if arms.len() == vs.len() && o.state != "return" { toks.push(format!("state:{}", o.state.replace(':', "_"))); }
                 res[*i] = Some(if toks.is_empty() { "-".into() } else { toks.join(",") });
             }
+            true
         }
-    }
+    };
     let _ = std::fs::remove_dir_all(&dir);
-    res
+    ok
 }
 
 fn main() {
     let a = args();
+    quiet_panics();
     let mut r = Rng::new(seed_from_env());
     let root = scratch_dir("c14");
     let ministd = write_ministd(&root);
